@@ -17,9 +17,13 @@ global size_of usize == 8;   // assumption: 64-bit target
 #[verifier::external_body] struct KMap { _p: u8 }
 #[verifier::external_body] struct KIteratorOutput { _p: u8 }
 type Output = KIteratorOutput;
-impl KList { uninterp spec fn at(&self, i: int) -> Option<KIteratorOutput>; }
-impl KTuple { uninterp spec fn at(&self, i: int) -> Option<KIteratorOutput>; }
-impl KMap { uninterp spec fn at(&self, i: int) -> Option<KIteratorOutput>; }
+// `len()` is the CURRENT length of the (shared, possibly growing) container: unrelated to the cursor
+impl KList { uninterp spec fn at(&self, i: int) -> Option<KIteratorOutput>; uninterp spec fn cur_len(&self) -> usize;
+    #[verifier::external_body] fn len(&self) -> (r: usize) ensures r == self.cur_len() { unimplemented!() } }
+impl KTuple { uninterp spec fn at(&self, i: int) -> Option<KIteratorOutput>; uninterp spec fn cur_len(&self) -> usize;
+    #[verifier::external_body] fn len(&self) -> (r: usize) ensures r == self.cur_len() { unimplemented!() } }
+impl KMap { uninterp spec fn at(&self, i: int) -> Option<KIteratorOutput>; uninterp spec fn cur_len(&self) -> usize;
+    #[verifier::external_body] fn len(&self) -> (r: usize) ensures r == self.cur_len() { unimplemented!() } }
 """
 
 
